@@ -1,6 +1,7 @@
 import json, os, sys
 sys.path.insert(0, os.path.dirname(__file__))
 import cfg_common as cc
+import reconciler_part
 
 PKG = "internal/config"
 
@@ -47,6 +48,8 @@ def run(ctx):
                                  "overlap_cases": sum(1 for c in cases if c.get("kind") == "overlap"),
                                  "mismatches": len(mism), "generator_counters": st,
                                  "oracle_evaluations": sum(st.get(k, 0) for k in ("membership_probes", "disjointness_pairs", "attach_checks", "aggregate_probes", "localpref_pairs", "tiling_checks", "overlap_checks"))}
+    # the reconciler glue: real ConfigReconciler / PoolReconciler over edit histories vs Model/Reconciler.v
+    n_rec, st_rec = reconciler_part.run_reconciler(ctx, None)
     ctx.trusted += [
         "net.ParseIP / the address and length read by net.ParseCIDR, strings.SplitN/TrimSpace, k8s label selectors (matchLabels only; matchExpressions outside the model) are modelled by their documented behaviour",
         "ipaddr.Summarize is modelled from its source (Model/Cfg.v grow/summ) with fuel 2*width+2, proved sufficient (C08_summarize_fuel_ok); uint32/uint64-pair arithmetic of the Go code is modelled in N (the EOR test that prevents the wrap-around is mirrored)",
